@@ -21,9 +21,9 @@ def dots_str(cell):
     if cell == 0:
         return "0"
     s = ""
-    for i in range(8):
+    for i in range(15):
         if cell & (1 << i):
-            s += "12345678"[i]
+            s += "123456789abcdef"[i]
     return s
 
 
@@ -286,12 +286,228 @@ def gen_table(rng, kind="f0", **kw):
         gen_alphabet(rng, t, upper=False)
         gen_passes(rng, t, per_stage=kw.get("per_stage", (0, 3)), literal_only=kw.get("literal_only", True),
                    biased_nonconsuming=kw.get("biased", False))
+    elif kind == "extras":
+        gen_alphabet(rng, t, upper=False)
+        gen_translation_rules(rng, t)
+        gen_extras(rng, t, f6=kw.get("f6", 0.08), hyph=kw.get("hyph"))
+        gen_passes(rng, t, per_stage=(0, 1), literal_only=False)
     else:
         gen_alphabet(rng, t)
         gen_indicators(rng, t)
         gen_translation_rules(rng, t)
         gen_passes(rng, t, per_stage=(0, 2), literal_only=False, biased_nonconsuming=kw.get("biased", False))
     return t
+
+
+# ---------------------------------------------------------------- further kinds of stored references (C12 / C15)
+
+MATCH_PATTERNS = ["-", "-", "%a", "%[^_]", "%[al]", "%[^_.]", "a|b", "[ab]", "(a|b)c", "%a*", "%[^_]?b", "!a", "%[#]+"]
+
+
+def gen_extras(rng, t, f6=0.08, hyph=None):
+    """append rules that store the other kinds of references a table image holds: base characters
+    (`linked` lists, case folding), `context` rules with a literal head in upper case (re-filed by
+    finalizeTable) next to ordinary rules of the same bucket, grouping and swap names referenced from
+    pass programs (with probability f6: an undefined name AFTER a valid one, DESIGN F6), match
+    patterns, indicator and emphasis slots, display rules, optionally an included hyphenation
+    dictionary `hyph` (file name).  Returns the list of appended Rule objects."""
+    out = []
+    lows = [c for c in t.charcell if t.attrs.get(c) in ("lowercase", "letter") and 0x61 <= c <= 0x7a]
+    cells = [c for c in t.cells() if c] or [1]
+
+    def dots(n=None):
+        return cells_str([rng.choice(cells) for _ in range(n or rng.randint(1, 2))])
+
+    ups = []
+    for c in lows:
+        if rng.random() < 0.6 and (c - 32) not in t.charcell:
+            out.append(Rule(None, raw="base uppercase %s %s" % (chr(c - 32), chr(c))))
+            ups.append(c - 32)
+    grp = []
+    for _ in range(rng.randint(0, 4)):
+        if len(lows) < 2:
+            break
+        s = [rng.choice(lows) for _ in range(rng.randint(2, 4))]
+        u = [x - 32 if ((x - 32) in ups and rng.random() < 0.7) else x for x in s]
+        grp.append(Rule(None, raw='noback context "%s" @%s' % ("".join(map(chr, u)), dots())))
+        for _ in range(rng.randint(0, 2)):
+            grp.append(Rule(rng.choice(["always", "begword", "word", "always"]), list(s), [rng.choice(cells)], "noback"))
+    rng.shuffle(grp)
+    out += grp
+    # indicator / emphasis slots
+    slots = ["letsign 56", "numsign 3456", "nonumsign 56", "nocontractsign 5", "begcomp 456-346", "endcomp 456-156",
+             "undefined 3456", "capsletter 6", "begcapsword 6-6", "endcapsword 6-3"]
+    for sl in slots:
+        if rng.random() < 0.3:
+            out.append(Rule(None, raw=sl))
+    if rng.random() < 0.4:
+        for i, n in enumerate(["italic", "underline", "bold"][:rng.randint(1, 3)]):
+            out.append(Rule(None, raw="emphclass " + n))
+            for op in rng.sample(["emphletter", "begemphword", "endemphword", "begemphphrase"], rng.randint(1, 3)):
+                out.append(Rule(None, raw="%s %s %s" % (op, n, dots())))
+    # grouping / swap names and pass programs referring to them
+    names = []
+    if rng.random() < 0.6:
+        out.append(Rule(None, raw="grouping paren () 126,345"))
+        names.append(("g", "paren"))
+        if rng.random() < 0.4:
+            out.append(Rule(None, raw="grouping brace {} 246,135"))
+            names.append(("g", "brace"))
+    if lows and rng.random() < 0.6:
+        k = min(len(lows), 3)
+        src = "".join(chr(c) for c in lows[:k])
+        out.append(Rule(None, raw="swapcc swcc %s %s" % (src, src[::-1])))
+        names.append(("cc", "swcc"))
+        out.append(Rule(None, raw="swapcd swcd %s %s" % (src, ",".join(dots(1) for _ in range(k)))))
+        names.append(("cd", "swcd"))
+        out.append(Rule(None, raw="swapdd swdd %s %s" % (",".join(dots(1) for _ in range(k)), ",".join(dots(1) for _ in range(k)))))
+        names.append(("dd", "swdd"))
+    for kind, nm in names:
+        for _ in range(rng.randint(1, 2)):
+            bad = rng.random() < f6
+            if kind == "g":
+                second = "nosuch" if bad else nm
+                test = rng.choice(["{%s}%s" % (nm, second), "[{%s]}%s" % (nm, second), "{%s" % nm, "}%s" % nm] if not bad
+                                  else ["{%s}%s" % (nm, second), "[{%s]}%s" % (nm, second)])
+                action = rng.choice(["@3", "?", "{%s" % nm, "}%s@1" % nm, "*"])
+                out.append(Rule(None, raw="noback pass2 %s %s" % (test, action)))
+            else:
+                stage = {"cc": "correct", "cd": "context", "dd": "pass2"}[kind]
+                rngs = rng.choice(["", "1-2", "2"])
+                if bad:
+                    test = "[%%%s%s]%%nosuch" % (nm, rngs)
+                else:
+                    test = rng.choice(["[%%%s%s]" % (nm, rngs), "%%%s%s" % (nm, rngs)])
+                action = "%%%s" % nm if test.startswith("[") else "*"
+                out.append(Rule(None, raw="noback %s %s %s" % (stage, test, action)))
+    # match rules
+    for _ in range(rng.randint(0, 3)):
+        if not lows:
+            break
+        s = "".join(chr(rng.choice(lows)) for _ in range(rng.randint(1, 3)))
+        out.append(Rule(None, raw="noback match %s %s %s %s" % (rng.choice(MATCH_PATTERNS), s, rng.choice(MATCH_PATTERNS), dots())))
+    for _ in range(rng.randint(0, 2)):
+        if lows:
+            out.append(Rule(None, raw="display %s %s" % (chr(rng.choice(lows)), dots_str(rng.randint(1, 63)))))
+    if hyph:
+        out.append(Rule(None, raw="include %s" % hyph))
+    t.rules += out
+    return out
+
+
+def gen_hyph_dic(rng, t, n=None):
+    """a small hyphenation dictionary over the table's letters (text of the .dic file)"""
+    lows = [chr(c) for c in t.charcell if 0x61 <= c <= 0x7a] or ["a"]
+    lines = ["UTF-8"]
+    for _ in range(n or rng.randint(3, 30)):
+        w = [rng.choice(lows) for _ in range(rng.randint(1, 5))]
+        pat = ""
+        if rng.random() < 0.2:
+            pat += "."
+        for ch in w:
+            if rng.random() < 0.4:
+                pat += str(rng.randint(1, 9))
+            pat += ch
+        if rng.random() < 0.3:
+            pat += str(rng.randint(1, 9))
+        if rng.random() < 0.2:
+            pat += "."
+        lines.append(pat)
+    return "\n".join(lines) + "\n"
+
+
+MALFORMED = ["nosuchopcode a 1", "always", "always ab", "always ab 19z", "always ab 1-", "letter ab 12", "sign", "after nosuchclass always ab 12",
+             "noback pass2 @1", "noback pass2 [@1 @2", "pass2 @1 @2", "noback match %[ ab - 12", "noback match - ab ( 12",
+             "noback context \"a @1", "noback correct @1 \"a\"", "include nosuchfile.ctb", "grouping g ab 1", "swapcd s ab 1",
+             "noback pass2 {nosuchgroup @1", "noback pass2 %nosuchswap @1", "emphletter nosuchclass 1", "base nosuchattr", "multind 1 nosuch",
+             "noback nofor always ab 1", "numericmodechars \\x0f00", "capsmodechars \\x0f01", "display ab 1", "display a 1-2", "math \\x0f02"]
+
+
+# rejected by compileRule before anything has been stored (observed; the oracle of C15 re-checks it on every run)
+MALFORMED_CLEAN = ["nosuchopcode a 1", "always", "always ab", "always ab 19z", "always ab 1-", "letter ab 12", "sign",
+                   "after nosuchclass always ab 12", "include nosuchfile.ctb", "grouping g ab 1", "emphletter nosuchclass 1",
+                   "multind 1 nosuch", "noback nofor always ab 1", "numericmodechars \\x0f00",
+                   "capsmodechars \\x0f01", "display ab 1", "display a 1-2", "math \\x0f02", "always \\x0f03 =", "letter \\x0f04",
+                   "letter \\x0f05 1z", "undefined", "numsign 1z", "swapcc s2 ab", "comp6 ab 1", "hyphen ab 1",
+                   "exactdots ab", "locale", "uplow Aa 1", "before"]
+# rejected only after a partial effect, or accepted although an error is logged (findings of C15; each is tried in isolation)
+MALFORMED_DIRTY = [("noback pass2", "pass"), ("correct \"a\" \"b\"", "pass"), ("noback pass2 @1", "pass"), ("noback pass3 [@1 @2", "pass"), ("noback pass4 @1 @2z", "pass"),
+                   ("noback correct @1 \"a\"", "pass"), ("noback pass2 {nosuchgroup @1", "pass"), ("noback pass2 %nosuchswap @1", "pass"),
+                   ("noback match %[ ab - 12", "match"), ("noback match - ab ( 12", "match"), ("nofor match - ab ( 12", "match"),
+                   ("base uppercase \\x0994", "base"), ("base uppercase \\x0994 ab", "base"), ("base nosuchattr", "base"),
+                   ("begmodeword nosuchmode", "modeword"), ("lencapsphrase 0", "lenphrase"), ("lenemphphrase italic 0", "lenphrase"),
+                   ("grouping g1 \\x0998\\x0999 1,2", "grouping"), ("swapcd s1 ab 1,2", "swap"),
+                   ("numericmodechars a\\x09ac", "modechars"), ("capsmodechars a\\x09ae", "modechars"), ("numericnocontchars a\\x09af", "modechars"),
+                   ("seqdelimiter a\\x09b3", "modechars"), ("syllable", "syllable"), ("syllable ab", "syllable"), ("syllable \\x09b0 1z", "syllable"),
+                   ("noback context \"a @1", "unterminated-string"), ("noback correct \"a\" \"b", "unterminated-string"),
+                   ("attribute nosuch1 \\x099b", "attribute-name"), ("rependword \\x09a1 1,2z", "rependword")]
+
+
+def gen_addition(rng, t, i, malformed=0.0, kinds=("def", "trans", "pass", "display", "extras"), fat=0.0, strict=False):
+    """one rule for lou_compileString on a table built from the Tbl `t` (which is updated for rules that define
+    characters): returns (text, kind).  `i` numbers the additions (fresh characters U+0400+i)."""
+    if rng.random() < malformed:
+        return rng.choice(MALFORMED_CLEAN if strict else MALFORMED), "malformed"
+    if fat and rng.random() < fat:
+        # a long rule (several hundred bytes in the image), to make the image grow
+        cs = [c for c in t.chars() if c != 0x20] or [0x61]
+        # (at most 50 characters: TranslationTableRule.charsdots is declared widechar[50] and indexing it beyond that
+        # aborts under UBSan's bounds check, finding F18; the cells are addressed through a pointer)
+        return "%salways %s %s" % (rng.choice(["", "noback ", "nofor "]), chars_str([rng.choice(cs) for _ in range(rng.randint(2, 50))]),
+                                    cells_str([rng.randint(1, 63) for _ in range(rng.randint(100, 400))])), "fat"
+    kind = rng.choice(kinds)
+    cells = [c for c in t.cells() if c] or [1]
+    if kind in ("trans", "pass") and not [c for c in t.chars() if c != 0x20]:
+        kind = "def"
+    if kind == "def":
+        c = 0x0400 + (i % 0x300)
+        op = rng.choice(["letter", "lowercase", "sign", "punctuation", "math", "digit", "litdigit", "space", "uppercase"])
+        d = [rng.randint(1, 255) for _ in range(rng.randint(1, 2))]
+        t.charcell.setdefault(c, d[0])
+        t.attrs.setdefault(c, op)
+        return "%s%s %s %s" % (rng.choice(["", "", "noback ", "nofor "]), op, char_str(c), cells_str(d)), kind
+    if kind == "trans":
+        tmp = Tbl()
+        tmp.charcell, tmp.attrs = t.charcell, t.attrs
+        gen_translation_rules(rng, tmp, n=1, allow_equals=False)
+        return tmp.rules[0].text(), kind
+    if kind == "pass":
+        st = rng.choice(["correct", "context", "pass2", "pass3", "pass4"])
+        return gen_pass_rule(rng, t, st, rng.choice(["noback", "nofor"]), literal_only=rng.random() < 0.7).text(), kind
+    if kind == "display":
+        cs = t.chars() or [0x61]
+        return "display %s %s" % (char_str(rng.choice(cs)), dots_str(rng.randint(1, 255))), kind
+    # extras: names and references, match rules, indicators
+    r = rng.random()
+    lows = [c for c in t.charcell if 0x61 <= c <= 0x7a] or [0x61]
+    names = t.__dict__.setdefault("names", set())
+    if r < 0.2:
+        nm = "g" + "abcdefgh"[i % 8]
+        names.add(nm)
+        return "grouping %s %s%s %s,%s" % (nm, char_str(0x0700 + 2 * (i % 0x80)), char_str(0x0701 + 2 * (i % 0x80)),
+                                            dots_str(rng.randint(1, 255)), dots_str(rng.randint(1, 255))), "grouping"
+    if r < 0.35:
+        nm = "g" + "abcdefgh"[rng.randrange(8)]
+        if strict and nm not in names:
+            return "letsign 56", "indicator"
+        return "noback pass2 {%s}%s @%s" % (nm, nm, dots_str(rng.choice(cells))), "groupref"
+    if r < 0.5:
+        src = "".join(chr(c) for c in lows[:3])
+        nm = "s" + "abcdefgh"[i % 8]
+        names.add(nm)
+        return "swapcd %s %s %s" % (nm, src, ",".join(dots_str(rng.choice(cells)) for _ in src)), "swap"
+    if r < 0.65:
+        nm = "s" + "abcdefgh"[rng.randrange(8)]
+        if strict and nm not in names:
+            return "numsign 3456", "indicator"
+        return "noback context [%%%s] %%%s" % (nm, nm), "swapref"
+    if r < 0.85:
+        sx = "".join(chr(rng.choice(lows)) for _ in range(rng.randint(1, 3)))
+        return "noback match %s %s %s %s" % (rng.choice(MATCH_PATTERNS), sx, rng.choice(MATCH_PATTERNS),
+                                              cells_str([rng.choice(cells)])), "match"
+    return rng.choice(["letsign 56", "numsign 3456", "nonumsign 56", "nocontractsign 5", "begcomp 456-346", "undefined 3456",
+                       "capsletter 6", "begcapsword 6-6", "endcapsword 6-3", "attribute myattr " + "".join(chr(c) for c in lows[:2]),
+                       "base uppercase %s %s" % (chr(lows[0] - 32), chr(lows[0]))]), "indicator"
 
 
 def rand_text(rng, t, maxlen=12, undefined=0.05):
@@ -309,6 +525,29 @@ def rand_text(rng, t, maxlen=12, undefined=0.05):
     return out
 
 
+def rand_text_rules(rng, t, maxlen=12):
+    """text built mostly from the character strings of the table's own rules, so that multi-character
+    rules, their prefixes and overlaps are actually exercised"""
+    strs = [r.chars for r in t.rules if r.chars and r.test is None and r.raw is None and len(r.chars) > 1]
+    if not strs:
+        return rand_text(rng, t, maxlen)
+    out = []
+    while len(out) < maxlen and rng.random() < 0.85:
+        r = rng.random()
+        if r < 0.6:
+            s = list(rng.choice(strs))
+            if rng.random() < 0.2 and len(s) > 1:
+                s = s[:-1]
+            if rng.random() < 0.15 and s[0] in t.upper:
+                s[0] = t.upper[s[0]]
+            out += s
+        elif r < 0.8:
+            out.append(0x20)
+        else:
+            out += rand_text(rng, t, 2)
+    return out[:maxlen]
+
+
 def rand_cells(rng, t, maxlen=12, undefined=0.05):
     cs = t.cells()
     n = rng.randint(0, maxlen)
@@ -322,3 +561,56 @@ def rand_cells(rng, t, maxlen=12, undefined=0.05):
         else:
             out.append(0x8000 | rng.choice(cs))
     return out
+
+
+# ---------------------------------------------------------------- structured entries for the Lean compile model
+
+OPNAME = {"always": "CTO_Always", "word": "CTO_WholeWord", "partword": "CTO_PartWord", "begword": "CTO_BegWord",
+          "midword": "CTO_MidWord", "endword": "CTO_EndWord", "begmidword": "CTO_BegMidWord",
+          "midendword": "CTO_MidEndWord", "sufword": "CTO_SuffixableWord", "prfword": "CTO_PrefixableWord",
+          "lowword": "CTO_LowWord", "space": "CTO_Space", "digit": "CTO_Digit", "litdigit": "CTO_LitDigit",
+          "punctuation": "CTO_Punctuation", "math": "CTO_Math", "sign": "CTO_Sign", "letter": "CTO_Letter",
+          "uppercase": "CTO_UpperCase", "lowercase": "CTO_LowerCase", "numsign": "CTO_NumberSign",
+          "undefined": "CTO_Undefined"}
+
+_opnum = None
+
+
+def opnum(name):
+    """opcode number from the generated Lean constants (lean/LouModel/Gen/Consts.lean)"""
+    global _opnum
+    if _opnum is None:
+        import os, re
+        p = os.path.join(os.path.dirname(os.path.dirname(os.path.dirname(os.path.abspath(__file__)))),
+                         "lean", "LouModel", "Gen", "Consts.lean")
+        _opnum = {m.group(1): int(m.group(2)) for m in re.finditer(r"^def (CTO_\w+) : Nat := (\d+)", open(p).read(), re.M)}
+    return _opnum[OPNAME[name]]
+
+
+def parse_dots_operand(s):
+    """'12-3' -> [0x8003, 0x8004]"""
+    out = []
+    for cell in s.split("-"):
+        v = 0x8000
+        for ch in cell:
+            if ch == "0":
+                continue
+            v |= 1 << ("123456789abcdef".index(ch))
+        out.append(v)
+    return out
+
+
+def entry_str(rule):
+    """`opcode:chars:dots:flags` for one Rule of the F0' fragment; None when the rule is outside it"""
+    def w(l):
+        return "".join("%04x" % x for x in l) or "-"
+    fl = ("b" if rule.prefix == "noback" else "") + ("f" if rule.prefix == "nofor" else "") or "-"
+    if rule.raw is not None:
+        p = rule.raw.split()
+        if p[0] in ("numsign", "undefined") and len(p) == 2:
+            return "%d:-:%s:%s" % (opnum(p[0]), w(parse_dots_operand(p[1])), fl)
+        return None
+    if rule.test is not None or rule.opcode not in OPNAME:
+        return None
+    dots = [] if rule.cells is None else [0x8000 | c for c in rule.cells]
+    return "%d:%s:%s:%s" % (opnum(rule.opcode), w(rule.chars), w(dots), fl)
